@@ -12,6 +12,8 @@ import (
 
 	"pgregory.net/rapid"
 
+	"github.com/vmware/go-ipfix/pkg/entities"
+
 	"verifharness/ev"
 	"verifharness/exph"
 	"verifharness/gen"
@@ -35,6 +37,16 @@ type Case struct {
 	V6     bool   `json:"v6"`
 	Domain uint32 `json:"domain"`
 	Steps  []Step `json:"steps"`
+	// Refresh (udp): after the steps one template-refresh round is run (the body of the refresh
+	// tick); its messages are on the wire too and must be the templates sent so far.
+	Refresh bool `json:"refresh,omitempty"`
+}
+
+// SweepCase is one attempt to send a data set whose message would have Size bytes (around the
+// 65535 limit); whether or not it is refused, what is on the wire must be well-formed.
+type SweepCase struct {
+	Proto string `json:"proto"`
+	Size  int    `json:"size"`
 }
 
 var (
@@ -46,6 +58,9 @@ func TestMain(m *testing.M) {
 	glue.SilenceKlog()
 	pool, _ = glue.NewPoolArgs()
 	if rp := ev.LoadReplay(); rp != nil {
+		if rp.Phase == "size_sweep" {
+			ev.RunReplay(rp, runSweep)
+		}
 		ev.RunReplay(rp, runCase)
 	}
 	rec = ev.New("C02", "sessions of 1..8 SendSet calls (template sets through AddRecord / AddRecordWithExtraElements / AddRecordV2 / MakeTemplateSet, data sets of 1..n records) over tcp and udp, IPv4 and IPv6 loopback, elements from IANA, 29305, 56506 and a user-registered enterprise covering all 18 types; every byte is captured by a harness-owned socket and parsed by the reference codec; non-trivial = the session has an enterprise-specific element and (a variable-length value or >= 2 records in a set); distinct by hash of the case",
@@ -133,6 +148,101 @@ func runCase(c Case) *ev.Failure {
 			return ev.Failf("step %d: bytes on the wire differ from the RFC encoding at offset %d:\n got  % x\n want % x", i, firstDiff(got, want), around(got, firstDiff(got, want)), around(want, firstDiff(got, want)))
 		}
 	}
+	if c.Refresh && c.Proto == "udp" && len(tpls) > 0 {
+		if err := ep.VerifSendRefreshedTemplates(); err != nil {
+			return ev.Failf("template refresh round failed: %v", err)
+		}
+		uniq := map[uint16]Step{}
+		for _, tp := range tpls {
+			uniq[tp.ID] = tp
+		}
+		if !peer.WaitMessages(sent+len(uniq), 0, waitLimit) {
+			return nil // datagram loss: inconclusive
+		}
+		msgs, _ := peer.Messages()
+		seen := map[uint16]bool{}
+		for k, got := range msgs[sent:] {
+			_, sets, err := ref.ParseMessage(got)
+			if err != nil || len(sets) != 1 || sets[0].ID != 2 {
+				return ev.Failf("refresh message %d is not a well-formed template message: %v", k, err)
+			}
+			t, _, err := ref.ParseTemplateRecord(sets[0].Body)
+			if err != nil {
+				return ev.Failf("refresh message %d: %v", k, err)
+			}
+			tp, ok := uniq[t.ID]
+			if !ok || seen[t.ID] {
+				return ev.Failf("refresh round retransmitted template %d (known %v, already seen %v)", t.ID, ok, seen[t.ID])
+			}
+			seen[t.ID] = true
+			want := ref.TemplateMessage(ref.Header{Domain: c.Domain}, ref.Template{ID: tp.ID, Fields: tp.Fields})
+			if !exph.SameExceptTimeSeq(got, want) {
+				return ev.Failf("refreshed template %d differs from the template that was sent, at offset %d: got % x want % x", t.ID, firstDiff(got, want), around(got, firstDiff(got, want)), around(want, firstDiff(got, want)))
+			}
+		}
+		if len(seen) != len(uniq) {
+			return ev.Failf("refresh round retransmitted %d of %d templates", len(seen), len(uniq))
+		}
+	}
+	return nil
+}
+
+// runSweep: a data set around the size limit, then a small marker message.
+func runSweep(c SweepCase) *ev.Failure {
+	peer, err := exph.NewPeer(c.Proto, false)
+	if err != nil {
+		return nil
+	}
+	defer peer.Close()
+	ep, err := exph.StartExporter(peer, 9, false)
+	if err != nil {
+		return ev.Failf("InitExportingProcess: %v", err)
+	}
+	defer ep.CloseConnToCollector()
+	f := []ref.Field{glue.UserField(ref.TString)}
+	mk := []ref.Field{glue.UserField(ref.TU32)}
+	n, total := 0, 0
+	send := func(set entities.Set, err error) {
+		if err != nil {
+			return
+		}
+		if k, err := ep.SendSet(set); err == nil {
+			n++
+			total += k
+		}
+	}
+	send(exph.TemplateSet(256, f, 0))
+	send(exph.TemplateSet(257, mk, 0))
+	send(exph.DataSet(256, f, [][]ref.Value{{{B: bytes.Repeat([]byte("z"), c.Size-23)}}}, c.Size%3))
+	send(exph.DataSet(257, mk, [][]ref.Value{{{U: 0xABCD}}}, 0))
+	if !peer.WaitMessages(n, total, waitLimit) && c.Proto == "udp" {
+		return nil
+	}
+	if c.Proto == "udp" {
+		msgs, _ := peer.Messages()
+		for k, m := range msgs {
+			if _, sets, err := ref.ParseMessage(m); err != nil || len(sets) != 1 {
+				return ev.Failf("attempt to send a %d-byte message: datagram %d on the wire is not a well-formed message: %v", c.Size, k, err)
+			}
+		}
+		return nil
+	}
+	stream, _ := peer.WaitStream(total, time.Second)
+	// the stream must tile into well-formed messages whose header length is what was sent
+	p := 0
+	for k := 0; p < len(stream); k++ {
+		if len(stream)-p < 20 {
+			return ev.Failf("attempt to send a %d-byte message: %d stray bytes at the end of the stream", c.Size, len(stream)-p)
+		}
+		l := int(stream[p+2])<<8 | int(stream[p+3])
+		if l < 20 || p+l > len(stream) {
+			return ev.Failf("attempt to send a %d-byte message: message %d on the wire declares length %d in its header, %d bytes of stream follow (the stream holds %d bytes for %d successful sends)", c.Size, k, l, len(stream)-p, len(stream), n)
+		}
+		if _, sets, err := ref.ParseMessage(stream[p : p+l]); err != nil || len(sets) != 1 {
+			return ev.Failf("attempt to send a %d-byte message: message %d on the wire is not well-formed: %v", c.Size, k, err)
+		}
+		p += l
+	}
 	return nil
 }
 
@@ -163,6 +273,7 @@ func genCase(t *rapid.T) Case {
 		V6:     rapid.IntRange(0, 3).Draw(t, "v6") == 0,
 		Domain: rapid.SampledFrom([]uint32{0, 1, 7, 0x80000000, 0xFFFFFFFF, 123456}).Draw(t, "domain"),
 	}
+	c.Refresh = c.Proto == "udp" && rapid.Bool().Draw(t, "refresh")
 	limit := 65535
 	if c.Proto == "udp" {
 		limit = 65507
@@ -252,7 +363,7 @@ func classify(c Case) (bool, []string) {
 		}
 	}
 	cl := []string{"proto_" + c.Proto}
-	for k, b := range map[string]bool{"enterprise_element": ent, "user_registered_element": user, "variable_length_value": varlen, "multi_record_set": multi, "value_255_or_longer": long, "ipv6_loopback": c.V6} {
+	for k, b := range map[string]bool{"enterprise_element": ent, "user_registered_element": user, "variable_length_value": varlen, "multi_record_set": multi, "value_255_or_longer": long, "ipv6_loopback": c.V6, "refresh_round": c.Refresh} {
 		if b {
 			cl = append(cl, k)
 		}
@@ -284,6 +395,17 @@ func TestC02(t *testing.T) {
 					rec.Violation("preamble", c, f.Msg)
 					t.Fatalf("preamble: %s", f.Msg)
 				}
+			}
+		}
+	}
+	// every run: attempts around the message size limit; whatever is refused, the wire stays well-formed
+	for _, proto := range []string{"tcp", "udp"} {
+		for size := 65500; size <= 65560; size++ {
+			c := SweepCase{Proto: proto, Size: size}
+			rec.Case(ev.Hash(c), true, "size_sweep")
+			if f := runSweep(c); f != nil {
+				rec.Violation("size_sweep", c, f.Msg)
+				t.Fatalf("size sweep: %s", f.Msg)
 			}
 		}
 	}
